@@ -536,6 +536,14 @@ func (tc *TC) deliver(s *Session, m message.RpcMessage, delay time.Duration, dup
 			tc.mu.Lock()
 			tc.log(Event{Dir: "s2c", Session: s.N, ID: m.ID, Type: m.Type, Body: m.Body})
 			tc.mu.Unlock()
+			defer func() {
+				// getty's task-pool worker recovers a panicking task; it is journaled here
+				if r := recover(); r != nil {
+					tc.mu.Lock()
+					tc.log(Event{Dir: "panic", Session: s.N, ID: m.ID, Type: m.Type, Body: fmt.Sprint(r)})
+					tc.mu.Unlock()
+				}
+			}()
 			sgetty.GetGettyClientHandlerInstance().OnMessage(s, m)
 		}()
 	}
